@@ -1,9 +1,108 @@
-"""Second-quantised part of C16 (solve_scalar / solve_sylvester_2nd_quant) -- filled in with the Fock model."""
+"""Second-quantised part of C16: solve_sylvester_2nd_quant / solve_scalar satisfy
+H_ii X - X H_jj = Y as an operator identity, checked in the Fock-space matrix model."""
+from __future__ import annotations
+
+import itertools
+import warnings
+
+import numpy as np
 
 
 def cases(tier, seed):
-    return []
+    from .c07 import family
+
+    out = []
+    fam = family()
+    for name, (modes, h0, terms) in fam.items():
+        tn = list(terms)
+        subs = [(t,) for t in tn] + (list(itertools.combinations(tn, 2)) if tier != "quick" or len(tn) <= 3 else [tuple(tn[:2])])
+        for sub in subs:
+            out.append(dict(solver="sq", form="scalar", model=name, terms=list(sub), seed=seed))
+    for form in ("matrix-diag-block", "matrix-offdiag-blocks"):
+        for y in ("jc", "rabi", "mixed"):
+            out.append(dict(solver="sq", form=form, y=y, seed=seed))
+    return out
 
 
 def run_case(case):
-    raise NotImplementedError
+    try:
+        with warnings.catch_warnings():
+            warnings.simplefilter("ignore")
+            V = run(case)
+    except Exception as e:  # noqa: BLE001
+        import traceback
+
+        V = [f"raises {type(e).__name__}: {str(e)[:150]} @ {traceback.format_exc().strip().splitlines()[-2][:100]}"]
+    d = {k: v for k, v in case.items() if k != "seed"}
+    return dict(violations=[dict(what=f"{w} [{d}]", key=None) for w in V[:3]], nontrivial=True,
+                outcome="sq:" + ("ok" if not V else "violation"), sample=d)
+
+
+def run(case):
+    import sympy
+    from sympy.physics.quantum import Dagger
+
+    from pymablock.number_ordered_form import NumberOperator, NumberOrderedForm
+    from pymablock.second_quantization import solve_sylvester_2nd_quant
+
+    from ..fockmodel import Space, expr_shifts, sorted_modes
+    from .c07 import build, mk, to_matrix
+
+    V = []
+    if case["form"] == "scalar":
+        ops, H0, Y = build(case["model"], case["terms"])
+        modes = sorted_modes(ops)
+        probe = Space(modes, D=4)
+        d, u = expr_shifts(probe, Y)
+        shift = max(d + u + [1])
+        D = 2 * shift + 4 if len([m for m in probe.kind if m in "bl"]) <= 1 else shift + 4
+        sp = Space(modes, D=D)
+        solve = solve_sylvester_2nd_quant(([H0],))
+        Ym = sympy.Matrix([[NumberOrderedForm.from_expr(Y, modes)]])
+        X = solve(Ym, (0, 0))
+        xm = to_matrix(sp, X, 1)
+        hm = sp.expr_matrix(H0)
+        ym = sp.expr_matrix(Y)
+        interior = sp.interior([shift] * len(modes), [shift] * len(modes))
+        res = (hm @ xm - xm @ hm - ym)[:, interior]
+        if not np.isfinite(xm).all() or np.abs(res).max() > 1e-8 * max(1.0, np.abs(ym).max()):
+            V.append(f"H X - X H != Y (residual {np.abs(res).max():.3g})")
+        if np.abs((xm + xm.conj().T)[:, interior][interior, :]).max() > 1e-8 * max(1.0, np.abs(xm).max()):
+            V.append("solution for a Hermitian right-hand side is not anti-Hermitian")
+        return V
+    o = mk()
+    a = o["a"]
+    N = NumberOperator(a)
+    R = sympy.Rational
+    hup, hdn = N + N**2 / 9 + R(4, 5), N + N**2 / 9 - R(4, 5)
+    sp = Space([a], D=9)
+    n = sp.dim
+    if case["y"] == "jc":
+        off01, off10 = a, Dagger(a)
+    elif case["y"] == "rabi":
+        off01, off10 = a + Dagger(a), a + Dagger(a)
+    else:
+        off01, off10 = (N + 1) * a + Dagger(a) ** 2 + 2, Dagger(a) * (N + 1) + a**2 + 2
+    interior = sp.interior([2], [2])
+    cols2 = np.concatenate([interior, interior + n])
+    if case["form"] == "matrix-diag-block":
+        Y = sympy.Matrix([[a + Dagger(a), off01], [off10, -(a**2 + Dagger(a) ** 2)]])
+        Yn = Y.applyfunc(lambda x: NumberOrderedForm.from_expr(x, [a]))
+        solve = solve_sylvester_2nd_quant(([hup, hdn],))
+        X = solve(Yn, (0, 0))
+        xm = to_matrix(sp, X, 2)
+        hm = to_matrix(sp, sympy.Matrix([[hup, 0], [0, hdn]]), 2)
+        ym = to_matrix(sp, Y, 2)
+        res = (hm @ xm - xm @ hm - ym)[:, cols2]
+        if not np.isfinite(xm).all() or np.abs(res).max() > 1e-8 * max(1.0, np.abs(ym).max()):
+            V.append(f"matrix-valued diagonal block: H X - X H != Y (residual {np.abs(res).max():.3g})")
+    else:
+        solve = solve_sylvester_2nd_quant(([hup], [hdn]))
+        for idx, y, hi, hj in (((0, 1), off01 + 3 * Dagger(a), hup, hdn), ((1, 0), off10 - sympy.I * a, hdn, hup)):
+            Yn = sympy.Matrix([[NumberOrderedForm.from_expr(y, [a])]])
+            X = solve(Yn, idx)
+            xm = to_matrix(sp, X, 1)
+            res = (sp.expr_matrix(hi) @ xm - xm @ sp.expr_matrix(hj) - sp.expr_matrix(y))[:, interior]
+            if not np.isfinite(xm).all() or np.abs(res).max() > 1e-8 * max(1.0, np.abs(sp.expr_matrix(y)).max()):
+                V.append(f"off-diagonal block {idx}: H_ii X - X H_jj != Y (residual {np.abs(res).max():.3g})")
+    return V
